@@ -59,10 +59,12 @@ func (tr *transport) noteIn(b []byte) {
 	if len(txt) > 300 {
 		txt = txt[:300] + fmt.Sprintf("...(%d bytes)", len(b))
 	}
+	harnessLock()
 	tr.seq++
 	tr.nIn++
 	tr.hist = append(tr.hist, HistLine{Seq: tr.seq, T: tr.sim.Now(), In: true, Text: txt})
-	tr.sim.record(EvSend, uint64(tr.seq))
+	harnessUnlock()
+	tr.sim.record(EvSend, 0)
 	tr.sim.MixHash([]byte(txt))
 }
 
@@ -70,6 +72,8 @@ func (tr *transport) noteIn(b []byte) {
 //
 //go:norace
 func (tr *transport) Write(b []byte) (int, error) {
+	harnessLock()
+	defer harnessUnlock()
 	tr.partial = append(tr.partial, b...)
 	for {
 		i := indexByte(tr.partial, '\n')
@@ -90,8 +94,10 @@ func (tr *transport) Write(b []byte) (int, error) {
 		} else if line == "readyok" {
 			tr.nReady++
 		}
-		tr.sim.record(EvOut, uint64(tr.seq))
+		harnessUnlock()
+		tr.sim.record(EvOut, 0)
 		tr.sim.MixHash([]byte(line))
+		harnessLock()
 	}
 	return len(b), nil
 }
